@@ -78,6 +78,13 @@ def check_total(ctx, s, part="total", by_construction=False):
     # option tokens: prefix before the first '--', for the string form and the argv form
     exp_opt = _split_model(toks)
     argv = ArgvArgs(["prog"] + list(toks))
+    joined = " ".join(toks)
+    if raw.to_string() != joined or raw.to_string(False) != joined or argv.to_string(False) != joined \
+            or argv.to_string() != "prog " + joined:
+        ctx.fail(part, "C08.option-tokens", s, joined, [raw.to_string(), argv.to_string(False), argv.to_string()],
+                 sig="to-string")
+    if raw.script_name is not None or argv.script_name != "prog":
+        ctx.fail(part, "C08.option-tokens", s, [None, "prog"], [raw.script_name, argv.script_name], sig="script-name")
     for kind, r in (("string", raw), ("argv", argv)):
         if list(r.tokens) != list(toks):
             ctx.fail(part, "C08.option-tokens", s, toks, list(r.tokens), sig=kind + "-tokens")
